@@ -170,9 +170,12 @@ def main():
         kids = []
         for pkg in ('vqa', 'vqa.vqc', 'vqa.vqd', 'vqb', 'json'):
             found, file_, kind = ref_find(pkg, roots)
-            if not found or kind != 'package':
-                continue
-            ref_children = {m.name for m in pkgutil.iter_modules([os.path.dirname(file_)])}
+            if found and kind == 'package':
+                ref_children = {m.name for m in pkgutil.iter_modules([os.path.dirname(file_)])}
+            else:
+                # a plain module, or nothing importable under that name: nothing below it can be imported
+                # (these layouts have no namespace directories)
+                ref_children = set()
             try:
                 impl_children = set(project.list_packages(pkg))
             except Exception as e:  # noqa
